@@ -44,6 +44,9 @@ def _ops(v, js=(1, 2, 3), faults=(), extra=(), quiet=False):
     tty = {"TERM": "xterm", "VERIF_TTY_COLS": "50"}
     ops.append(ninja_op(j=js[-1], env=tty, label="ninja -j%d [on a terminal]" % js[-1]))
     ops.append(ninja_op(j=1, env=tty, flags=["-v"], label="ninja -j1 -v [on a terminal]"))
+    for f in faults[:1]:
+        ops.append(ninja_op(j=js[-1], k=0, faults=f, flags=["-v", "--status", "[$finished/$total] "],
+                            label="ninja -j%d -k0 -v --status '[$finished/$total] ' faults=%s" % (js[-1], "+".join(sorted(f)))))
     for f in faults:
         ops.append(ninja_op(j=js[-1], k=0, faults=f))
         ops.append(ninja_op(j=js[-1], k=1, faults=f))
